@@ -55,3 +55,42 @@ func TestGeneratedScenariosDecode(t *testing.T) {
 		}
 	}
 }
+
+// The replay of a scenario is Execute(Decode(file)); the run that found it was
+// Execute(generated value). Both must be the same execution: same event log,
+// same state key, same counters' worth of steps, same verdict.
+func TestDecodedScenarioExecutesAlike(t *testing.T) {
+	n := 300
+	if s := os.Getenv("VERIF_ROUNDTRIP_EXEC_N"); s != "" {
+		n, _ = strconv.Atoi(s)
+	}
+	for _, id := range core.IDs() {
+		p, _ := core.Lookup(id)
+		seen := map[string]bool{}
+		for _, tier := range []string{"quick", "thorough"} {
+			for _, ph := range p.Plan(tier) {
+				if seen[ph.Name] || ph.Fresh {
+					continue
+				}
+				seen[ph.Name] = true
+				bad := 0
+				for seed := uint64(1); seed <= uint64(n); seed++ {
+					b, _ := json.Marshal(p.Generate(prng.New(seed), ph.Name))
+					sc2, err := p.Decode(b)
+					if err != nil {
+						t.Fatalf("%s/%s seed %d: %v", id, ph.Name, seed, err)
+					}
+					l1, l2 := core.NewLog(false), core.NewLog(false)
+					r1 := p.Execute(p.Generate(prng.New(seed), ph.Name), ph.Name, l1)
+					r2 := p.Execute(sc2, ph.Name, l2)
+					if l1.Hash() != l2.Hash() || r1.StateKey != r2.StateKey || r1.Steps != r2.Steps || (r1.Violation == nil) != (r2.Violation == nil) || r1.Skipped != r2.Skipped || r1.Invalid != r2.Invalid {
+						if bad++; bad < 4 {
+							t.Errorf("%s/%s seed %d: the decoded scenario executes differently from the generated one (log %x/%x, steps %d/%d, state %q/%q)", id, ph.Name, seed, l1.Hash(), l2.Hash(), r1.Steps, r2.Steps, r1.StateKey, r2.StateKey)
+						}
+					}
+				}
+				t.Logf("%s/%s: %d scenarios executed both ways, %d differ", id, ph.Name, n, bad)
+			}
+		}
+	}
+}
